@@ -43,7 +43,7 @@ pub fn prop() -> Prop {
         stub: &["transport", "store", "glue", "random source", "allocator wrapper", "teardown observer"],
         independent: &[],
         ref_sample: |_| 0,
-        required_probes: &["drop_SigningKey", "drop_SecretShare", "drop_KeyPackage", "drop_SigningNonces", "drop_dkg_round1_SecretPackage", "drop_dkg_round2_SecretPackage", "drop_dkg_round2_Package", "heap_block_scanned", "control_manually_drop_keeps_secret", "control_copy_type_keeps_secret", "zeroize_KeyPackage", "zeroize_SecretShare", "zeroize_SigningNonces", "zeroize_SigningShare", "zeroize_Nonce", "zeroize_dkg_round1_SecretPackage", "zeroize_dkg_round2_SecretPackage", "zeroize_dkg_round2_Package", "debug_checked", "non_interference_checked", "refresh_round1_secret_included"],
+        required_probes: &["drop_map_returned_by_part2", "drop_map_returned_by_dealer", "drop_SigningKey", "drop_SecretShare", "drop_KeyPackage", "drop_SigningNonces", "drop_dkg_round1_SecretPackage", "drop_dkg_round2_SecretPackage", "drop_dkg_round2_Package", "heap_block_scanned", "control_manually_drop_keeps_secret", "control_copy_type_keeps_secret", "zeroize_KeyPackage", "zeroize_SecretShare", "zeroize_SigningNonces", "zeroize_SigningShare", "zeroize_Nonce", "zeroize_dkg_round1_SecretPackage", "zeroize_dkg_round2_SecretPackage", "zeroize_dkg_round2_Package", "debug_checked", "non_interference_checked", "refresh_round1_secret_included"],
         prepare: None,
     }
 }
@@ -448,6 +448,63 @@ fn exec_c<C: Suite>(scen: &Scenario) -> Exec {
         rep.probe("zeroize_dkg_round2_SecretPackage");
         if z.secret_share() != zero::<C>() {
             return Exec::Violation(viol("C20.zeroize_left_secret", format!("dkg::round2::SecretPackage [{}]: after zeroize() secret_share() is not zero", C::NAME)), rep);
+        }
+    }
+    // the MAPS the library itself builds and hands out - part2's round-two packages for the peers, the dealer's shares: the user
+    // sends the entries and drops the map; whatever the map's blocks held when they are released must be wiped (a handful of
+    // entries: a B-tree that never split; moves inside a splitting tree are beyond what drop glue can reach)
+    {
+        let m = (scen.n as usize).clamp(3, 6) as u16;
+        let tt = scen.t.min(m).max(2);
+        let mut secs = Vec::new();
+        let mut r1: std::collections::BTreeMap<frost::Identifier<C>, frost::keys::dkg::round1::Package<C>> = std::collections::BTreeMap::new();
+        let mids: Vec<frost::Identifier<C>> = (1..=m).map(|i| id_from_scalar::<C>(&sc_from_u64::<C>(i as u64 * 3)).unwrap()).collect();
+        let mut okk = true;
+        for (j, id) in mids.iter().enumerate() {
+            let rng = crate::simrng::SimRng::good(stream(scen.seed, scen.run, &format!("c20/maps/part1/{j}")));
+            match frost::keys::dkg::part1::<C, _>(*id, m, tt, rng) {
+                Ok((sec, pkg)) => {
+                    secs.push(sec);
+                    r1.insert(*id, pkg);
+                }
+                Err(_) => okk = false,
+            }
+        }
+        if okk {
+            // the lowest, a middle and the highest participant (which entry a tree vacates depends on the position)
+            for who in [0usize, m as usize / 2, m as usize - 1] {
+                let mut others = r1.clone();
+                others.remove(&mids[who]);
+                if let Ok((s2, out)) = frost::keys::dkg::part2::<C>(secs[who].clone(), &others) {
+                    let mut secrets: Vec<Scalar<C>> = out.values().map(|p| share_scalar::<C>(p.signing_share())).collect();
+                    secrets.push(s2.secret_share());
+                    let pats: Vec<Vec<u8>> = secrets.iter().map(|s| image::<C>(s)).filter(|p| p.iter().filter(|b| **b != 0).count() >= 8).collect();
+                    if !pats.is_empty() {
+                        let o = observe_drop(out, &pats);
+                        rep.evaluations += 1;
+                        rep.probe("drop_map_returned_by_part2");
+                        if o.heap_hits > 0 || o.inline_after {
+                            return Exec::Violation(
+                                viol("C20.secret_left_in_heap_block_after_drop", format!("map of round-two packages returned by dkg::part2 to participant #{who} of {m} [{}]: a block released while dropping it still contained a share the participant computed ({} of {} blocks)", C::NAME, o.heap_hits, o.heap_blocks)),
+                                rep,
+                            );
+                        }
+                    }
+                }
+            }
+        }
+        let mut rng = crate::simrng::SimRng::good(stream(scen.seed, scen.run, "c20/maps/dealer"));
+        if let Ok((shares, _)) = frost::keys::generate_with_dealer::<C, _>(m, tt, frost::keys::IdentifierList::Custom(&mids), &mut rng) {
+            let secrets: Vec<Scalar<C>> = shares.values().map(|s| share_scalar::<C>(s.signing_share())).collect();
+            let pats: Vec<Vec<u8>> = secrets.iter().map(|s| image::<C>(s)).filter(|p| p.iter().filter(|b| **b != 0).count() >= 8).collect();
+            if !pats.is_empty() {
+                let o = observe_drop(shares, &pats);
+                rep.evaluations += 1;
+                rep.probe("drop_map_returned_by_dealer");
+                if o.heap_hits > 0 || o.inline_after {
+                    return Exec::Violation(viol("C20.secret_left_in_heap_block_after_drop", format!("map of shares returned by generate_with_dealer ({m} participants) [{}]: a block released while dropping it still contained a share ({} of {} blocks)", C::NAME, o.heap_hits, o.heap_blocks)), rep);
+                }
+            }
         }
     }
     // dkg::round2::Package
